@@ -388,6 +388,114 @@ v("C20", "stdout-buffered", "break", ["C20.console"], [("plugin_appender.go",
   "var Stdout io.Writer = os.Stdout", "var Stdout io.Writer = bufio.NewWriter(os.Stdout)"),
   ("plugin_appender.go", "import (\n\t\"fmt\"", "import (\n\t\"bufio\"\n\t\"fmt\"")])
 
+# ---------------------------------------------------------------- behaviour-preserving refactors (keep)
+v("C02", "matcher-iterative", "keep", [], [("log_refresh.go",
+  "\t\tif l, ok := cTags[tag]; ok {\n\t\t\treturn l\n\t\t}\n\t\ttag, _ = strings.CutSuffix(tag, \"_*\")\n\t\ti := strings.LastIndex(tag, \"_\")\n\t\tif i <= 0 {\n\t\t\treturn cRoot\n\t\t}\n\t\ttag = strings.TrimSuffix(tag[:i], \"_\") + \"_*\"\n\t\treturn findLoggerForTag(tag)\n",
+  "\t\tfor {\n\t\t\tif l, ok := cTags[tag]; ok {\n\t\t\t\treturn l\n\t\t\t}\n\t\t\ttag, _ = strings.CutSuffix(tag, \"_*\")\n\t\t\ti := strings.LastIndex(tag, \"_\")\n\t\t\tif i <= 0 {\n\t\t\t\treturn cRoot\n\t\t\t}\n\t\t\ttag = strings.TrimSuffix(tag[:i], \"_\") + \"_*\"\n\t\t}\n")])
+v("C02", "validate-split-loop", "keep", [], [("log_refresh.go",
+  "for tag := range strings.SplitSeq(logger.GetTags(), \",\") {",
+  "for _, tag := range strings.Split(logger.GetTags(), \",\") {")])
+v("C02", "validate-positive-form", "keep", [], [("log_refresh.go",
+  "\t\t\tif strings.Contains(tag, \"*\") {\n\t\t\t\tif !strings.HasSuffix(tag, \"_*\") {\n\t\t\t\t\terr = errutil.Explain(nil, \"tag '%s' is invalid\", tag)\n\t\t\t\t\treturn errutil.Stack(err, \"create logger %s error\", name)\n\t\t\t\t}\n\t\t\t}\n",
+  "\t\t\tif strings.Contains(tag, \"*\") && !strings.HasSuffix(tag, \"_*\") {\n\t\t\t\terr = errutil.Explain(nil, \"tag '%s' is invalid\", tag)\n\t\t\t\treturn errutil.Stack(err, \"create logger %s error\", name)\n\t\t\t}\n")])
+v("C16", "flag-check-hoisted", "keep", [], [("log_refresh.go",
+  "\ts, err := toStorage(data)\n\tif err != nil {\n\t\treturn errutil.Stack(err, \"toStorage error\")\n\t}\n",
+  "\tif global.init {\n\t\treturn errutil.Explain(nil, \"log refresh already done\")\n\t}\n\n\ts, err := toStorage(data)\n\tif err != nil {\n\t\treturn errutil.Stack(err, \"toStorage error\")\n\t}\n")])
+v("C16", "destroy-tuple-reset", "keep", [], [("log_refresh.go",
+  "\tglobal.loggers = nil\n\tglobal.appenders = nil\n\tglobal.init = false\n",
+  "\tglobal.loggers, global.appenders, global.init = nil, nil, false\n")])
+v("C06", "worker-as-method", "keep", [], [("plugin_logger.go",
+  "\t// Worker goroutine to process buffered items\n\tgo func() {\n", "\tgo c.run()\n\treturn nil\n}\n\n// run processes buffered items until the stop marker arrives.\nfunc (c *AsyncLogger) run() {\n\t{\n"),
+  ("plugin_logger.go", "\t\tclose(c.wait)\n\t}()\n\treturn nil\n}", "\t\tclose(c.wait)\n\t}\n}")])
+v("C05", "discard-no-return", "keep", [], [("plugin_logger.go",
+  "\t\tif e, ok := v.(*Event); ok {\n\t\t\tPutEvent(e)\n\t\t}\n\t\treturn\n\tdefault: // for linter",
+  "\t\tif e, ok := v.(*Event); ok {\n\t\t\tPutEvent(e)\n\t\t}\n\tdefault: // for linter")])
+v("C05", "oldest-loop-return-form", "keep", [], [("plugin_logger.go",
+  "\t\tvar exit bool\n\t\tfor {\n\t\t\tselect {\n\t\t\tcase c.buf <- v:\n\t\t\t\texit = true\n\t\t\tdefault:",
+  "\t\tfor {\n\t\t\tselect {\n\t\t\tcase c.buf <- v:\n\t\t\t\treturn\n\t\t\tdefault:"),
+  ("plugin_logger.go", "\t\t\tif exit {\n\t\t\t\tbreak\n\t\t\t}\n", "")])
+v("C04", "worker-if-assert", "keep", [], [("plugin_logger.go",
+  "\t\t\tswitch x := v.(type) {\n\t\t\tcase *Event:\n\t\t\t\tif c.Layout == nil {\n\t\t\t\t\tc.sendToAppenders(x)\n\t\t\t\t} else {\n\t\t\t\t\tc.writeToAppenders(x.Level, c.Layout.ToBytes(x))\n\t\t\t\t}\n\t\t\t\tPutEvent(x)\n\t\t\tcase []byte:\n\t\t\t\tc.writeRawToAppenders(x)\n\t\t\tdefault: // for linter\n\t\t\t}",
+  "\t\t\tif x, ok := v.(*Event); ok {\n\t\t\t\tif c.Layout == nil {\n\t\t\t\t\tc.sendToAppenders(x)\n\t\t\t\t} else {\n\t\t\t\t\tc.writeToAppenders(x.Level, c.Layout.ToBytes(x))\n\t\t\t\t}\n\t\t\t\tPutEvent(x)\n\t\t\t} else if b, ok := v.([]byte); ok {\n\t\t\t\tc.writeRawToAppenders(b)\n\t\t\t}")])
+v("C11", "depth-local", "keep", [], [("log.go",
+  "\tif enableCaller {\n\t\tif fastCaller {\n\t\t\tfile, line = FastCaller(skip + 1)\n\t\t} else {\n\t\t\t_, file, line, _ = runtime.Caller(skip + 1)\n\t\t}\n\t}",
+  "\tif enableCaller {\n\t\tdepth := skip + 1\n\t\tif fastCaller {\n\t\t\tfile, line = FastCaller(depth)\n\t\t} else {\n\t\t\t_, file, line, _ = runtime.Caller(depth)\n\t\t}\n\t}")])
+v("C11", "switch-form", "keep", [], [("log.go",
+  "\tif enableCaller {\n\t\tif fastCaller {\n\t\t\tfile, line = FastCaller(skip + 1)\n\t\t} else {\n\t\t\t_, file, line, _ = runtime.Caller(skip + 1)\n\t\t}\n\t}",
+  "\tswitch {\n\tcase !enableCaller:\n\tcase fastCaller:\n\t\tfile, line = FastCaller(skip + 1)\n\tdefault:\n\t\t_, file, line, _ = runtime.Caller(skip + 1)\n\t}")])
+v("C11", "fast-array-buffer", "keep", [], [("caller.go",
+  "\trpc := make([]uintptr, 1)\n\tn := runtime.Callers(skip+2, rpc[:])",
+  "\tvar pcs [1]uintptr\n\trpc := pcs[:]\n\tn := runtime.Callers(skip+2, rpc)")])
+v("C10", "hooks-reordered", "keep", [], [("log.go",
+  "\tvar ctxString string\n\tif StringFromContext != nil {\n\t\tctxString = StringFromContext(ctx)\n\t}\n\n\tvar ctxFields []Field\n\tif FieldsFromContext != nil {\n\t\tctxFields = FieldsFromContext(ctx)\n\t}\n",
+  "\tvar ctxFields []Field\n\tif FieldsFromContext != nil {\n\t\tctxFields = FieldsFromContext(ctx)\n\t}\n\n\tvar ctxString string\n\tif fn := StringFromContext; fn != nil {\n\t\tctxString = fn(ctx)\n\t}\n")])
+v("C19", "start-assigns-field-directly", "keep", [], [("plugin_appender.go",
+  "\tf, err := os.OpenFile(fileName, fileFlag, 0644)\n\tif err != nil {\n\t\treturn err\n\t}\n\tc.file = f\n\treturn nil\n",
+  "\tf, err := os.OpenFile(fileName, fileFlag, 0644)\n\tif err == nil {\n\t\tc.file = f\n\t}\n\treturn err\n")])
+v("C19", "stop-early-return", "keep", [], [("plugin_appender.go",
+  "func (c *FileAppender) Stop() {\n\tif c.file != nil {\n\t\t_ = c.file.Sync()\n\t\t_ = c.file.Close()\n\t}\n}",
+  "func (c *FileAppender) Stop() {\n\tif c.file == nil {\n\t\treturn\n\t}\n\t_ = c.file.Sync()\n\t_ = c.file.Close()\n}")])
+v("C20", "close-helper", "keep", [], [("plugin_appender.go",
+  "func (c *RollingFileAppender) Stop() {\n\tif file := c.oldFile.Swap(nil); file != nil {\n\t\t_ = file.Sync()\n\t\t_ = file.Close()\n\t}\n\tif file := c.file.Swap(nil); file != nil {\n\t\t_ = file.Sync()\n\t\t_ = file.Close()\n\t}\n}",
+  "func (c *RollingFileAppender) Stop() {\n\tsyncAndClose(c.oldFile.Swap(nil))\n\tsyncAndClose(c.file.Swap(nil))\n}\n\n// syncAndClose flushes and closes a file, ignoring nil.\nfunc syncAndClose(file *os.File) {\n\tif file != nil {\n\t\t_ = file.Sync()\n\t\t_ = file.Close()\n\t}\n}"),
+  ("plugin_appender.go", "\t// Close the previous rotation file\n\tif file := c.oldFile.Swap(nil); file != nil {\n\t\t_ = file.Sync()\n\t\t_ = file.Close()\n\t}\n", "\t// Close the previous rotation file\n\tsyncAndClose(c.oldFile.Swap(nil))\n")])
+v("C20", "handover-by-swap", "keep", [], [("plugin_appender.go",
+  "\toldFile := c.file.Load()\n\tc.oldFile.Store(oldFile)\n\n\tc.file.Store(file)\n",
+  "\tc.oldFile.Store(c.file.Swap(file))\n")])
+v("C13", "layout-constant", "keep", [], [("plugin_appender.go",
+  "func (r TimeRotation) Format(t time.Time) string {\n\treturn t.Format(\"20060102150405\")\n}",
+  "func (r TimeRotation) Format(t time.Time) string {\n\treturn t.Format(rotationLayout)\n}\n\nconst rotationLayout = \"20060102150405\""),
+  ("plugin_appender.go", "time.Parse(\"20060102150405\", suffix)", "time.Parse(rotationLayout, suffix)")])
+v("C14", "join-and-hasprefix", "keep", [], [("plugin_appender.go",
+  "\t\tsuffix, ok := strings.CutPrefix(entry.Name(), c.FileName+\".\")\n\t\tif !ok {\n\t\t\tcontinue\n\t\t}\n",
+  "\t\tprefix := c.FileName + \".\"\n\t\tif !strings.HasPrefix(entry.Name(), prefix) {\n\t\t\tcontinue\n\t\t}\n\t\tsuffix := entry.Name()[len(prefix):]\n"),
+  ("plugin_appender.go", "filePath := fmt.Sprintf(\"%s/%s\", c.FileDir, entry.Name())", "filePath := filepath.Join(c.FileDir, entry.Name())")])
+v("C13", "createfile-sprintf", "keep", [], [("plugin_appender.go",
+  "\tfileName := c.FileName + \".\" + formatTime\n\tfilePath := filepath.Join(c.FileDir, fileName)\n",
+  "\tfilePath := filepath.Join(c.FileDir, fmt.Sprintf(\"%s.%s\", c.FileName, formatTime))\n")])
+
+# ---------------------------------------------------------------- refactored form + a break (the rule must still fire in the refactored shape)
+ITER_OLD = "\t\tif l, ok := cTags[tag]; ok {\n\t\t\treturn l\n\t\t}\n\t\ttag, _ = strings.CutSuffix(tag, \"_*\")\n\t\ti := strings.LastIndex(tag, \"_\")\n\t\tif i <= 0 {\n\t\t\treturn cRoot\n\t\t}\n\t\ttag = strings.TrimSuffix(tag[:i], \"_\") + \"_*\"\n\t\treturn findLoggerForTag(tag)\n"
+v("C02", "iterative-root-too-early", "break", ["C02.result"], [("log_refresh.go", ITER_OLD,
+  "\t\tfor {\n\t\t\tif l, ok := cTags[tag]; ok {\n\t\t\t\treturn l\n\t\t\t}\n\t\t\ttag, _ = strings.CutSuffix(tag, \"_*\")\n\t\t\ti := strings.LastIndex(tag, \"_\")\n\t\t\tif i < 2 {\n\t\t\t\treturn cRoot\n\t\t\t}\n\t\t\ttag = strings.TrimSuffix(tag[:i], \"_\") + \"_*\"\n\t\t}\n")])
+v("C02", "iterative-returns-default", "break", ["C02.result"], [("log_refresh.go", ITER_OLD,
+  "\t\tfor {\n\t\t\tif l, ok := cTags[tag]; ok {\n\t\t\t\treturn l\n\t\t\t}\n\t\t\ttag, _ = strings.CutSuffix(tag, \"_*\")\n\t\t\ti := strings.LastIndex(tag, \"_\")\n\t\t\tif i <= 0 {\n\t\t\t\treturn defaultLogger\n\t\t\t}\n\t\t\ttag = strings.TrimSuffix(tag[:i], \"_\") + \"_*\"\n\t\t}\n")])
+v("C02", "root-fallback-off-by-one", "break", ["C02.result"], [("log_refresh.go",
+  "\t\tif i <= 0 {\n\t\t\treturn cRoot\n\t\t}", "\t\tif i <= 1 {\n\t\t\treturn cRoot\n\t\t}")])
+v("C02", "split-loop-drops-known-tags", "break", ["C02.all-tags"], [("log_refresh.go",
+  "for tag := range strings.SplitSeq(logger.GetTags(), \",\") {\n\t\t\tif tag = strings.TrimSpace(tag); tag == \"\" {\n\t\t\t\tcontinue\n\t\t\t}",
+  "for _, tag := range strings.Split(logger.GetTags(), \",\") {\n\t\t\tif tag = strings.TrimSpace(tag); tag == \"\" {\n\t\t\t\tcontinue\n\t\t\t}\n\t\t\tif _, dup := cTags[tag]; dup {\n\t\t\t\tcontinue\n\t\t\t}")])
+v("C20", "close-helper-only-syncs", "break", ["C05.close-all", "C05.fd-bound"], [("plugin_appender.go",
+  "func (c *RollingFileAppender) Stop() {\n\tif file := c.oldFile.Swap(nil); file != nil {\n\t\t_ = file.Sync()\n\t\t_ = file.Close()\n\t}\n\tif file := c.file.Swap(nil); file != nil {\n\t\t_ = file.Sync()\n\t\t_ = file.Close()\n\t}\n}",
+  "func (c *RollingFileAppender) Stop() {\n\tsyncAndClose(c.oldFile.Swap(nil))\n\tsyncAndClose(c.file.Swap(nil))\n}\n\n// syncAndClose flushes a file, ignoring nil.\nfunc syncAndClose(file *os.File) {\n\tif file != nil {\n\t\t_ = file.Sync()\n\t}\n}"),
+  ("plugin_appender.go", "\t// Close the previous rotation file\n\tif file := c.oldFile.Swap(nil); file != nil {\n\t\t_ = file.Sync()\n\t\t_ = file.Close()\n\t}\n", "\t// Close the previous rotation file\n\tsyncAndClose(c.oldFile.Swap(nil))\n")])
+v("C20", "close-helper-skips-on-error", "break", ["C05.close-all", "C05.fd-bound"], [("plugin_appender.go",
+  "func (c *RollingFileAppender) Stop() {\n\tif file := c.oldFile.Swap(nil); file != nil {\n\t\t_ = file.Sync()\n\t\t_ = file.Close()\n\t}\n\tif file := c.file.Swap(nil); file != nil {\n\t\t_ = file.Sync()\n\t\t_ = file.Close()\n\t}\n}",
+  "func (c *RollingFileAppender) Stop() {\n\tsyncAndClose(c.oldFile.Swap(nil))\n\tsyncAndClose(c.file.Swap(nil))\n}\n\n// syncAndClose flushes and closes a file, ignoring nil.\nfunc syncAndClose(file *os.File) {\n\tif file != nil {\n\t\tif err := file.Sync(); err != nil {\n\t\t\treturn\n\t\t}\n\t\t_ = file.Close()\n\t}\n}"),
+  ("plugin_appender.go", "\t// Close the previous rotation file\n\tif file := c.oldFile.Swap(nil); file != nil {\n\t\t_ = file.Sync()\n\t\t_ = file.Close()\n\t}\n", "\t// Close the previous rotation file\n\tsyncAndClose(c.oldFile.Swap(nil))\n")])
+v("C20", "swap-result-dropped", "break", ["C05.fd-bound"], [("plugin_appender.go",
+  "\toldFile := c.file.Load()\n\tc.oldFile.Store(oldFile)\n\n\tc.file.Store(file)\n",
+  "\tc.file.Swap(file)\n")])
+v("C13", "sprintf-wrong-separator", "break", ["C13.name"], [("plugin_appender.go",
+  "\tfileName := c.FileName + \".\" + formatTime\n\tfilePath := filepath.Join(c.FileDir, fileName)\n",
+  "\tfilePath := filepath.Join(c.FileDir, fmt.Sprintf(\"%s-%s\", c.FileName, formatTime))\n")])
+v("C06", "capacity-one-short", "break", ["C06.capacity"], [("plugin_logger.go",
+  "c.buf = make(chan any, c.BufferSize)", "c.buf = make(chan any, c.BufferSize-1)")])
+v("C06", "capacity-local", "keep", [], [("plugin_logger.go",
+  "c.buf = make(chan any, c.BufferSize)", "size := c.BufferSize\n\tc.buf = make(chan any, size)")])
+v("C06", "method-worker-second-consumer", "break", ["C06.single-consumer"], [("plugin_logger.go",
+  "\t// Worker goroutine to process buffered items\n\tgo func() {\n", "\tgo c.run()\n\tgo c.run()\n\treturn nil\n}\n\n// run processes buffered items until the stop marker arrives.\nfunc (c *AsyncLogger) run() {\n\t{\n"),
+  ("plugin_logger.go", "\t\tclose(c.wait)\n\t}()\n\treturn nil\n}", "\t\tclose(c.wait)\n\t}\n}")])
+v("C08", "truncate-at-equal", "break", ["C08.truncate"], [("plugin_layout.go",
+  "if n := len(fileLine); n > c.FileLineLength {", "if n := len(fileLine); n >= c.FileLineLength {")])
+v("C08", "truncate-keeps-w-minus-2", "break", ["C08.truncate"], [("plugin_layout.go",
+  "fileLine[n-max(c.FileLineLength-3, 0):]", "fileLine[n-max(c.FileLineLength-2, 0):]")])
+v("C08", "truncate-not-less-form", "keep", [], [("plugin_layout.go",
+  "if n := len(fileLine); n > c.FileLineLength {", "if n := len(fileLine); !(n <= c.FileLineLength) {")])
+v("C10", "hooks-local-copy-second-call", "break", ["C10.once"], [("log.go",
+  "\tvar ctxString string\n\tif StringFromContext != nil {\n\t\tctxString = StringFromContext(ctx)\n\t}\n",
+  "\tvar ctxString string\n\tif fn := StringFromContext; fn != nil {\n\t\tctxString = fn(ctx)\n\t\tctxString = fn(ctx)\n\t}\n")])
+
 
 def main():
     for k in ("break", "keep"):
